@@ -3,13 +3,26 @@ import AioslskVerif.Model.Sched
 # Background tasks of a transfer (C06)
 
 Explicit task objects on top of the scheduler's vocabulary (`St`, `Dir` of `Model/Sched.lean`).
-The code modelled is the tree **with** `fixes/C06-single-flight.patch`:
+The code modelled is the tree **with** `fixes/C06-single-flight.patch` and
+`fixes/C06-init-download-refused.patch`:
 
 * `manage_transfers` skips a transfer whose task slot still holds a running task
   (`_is_running`, manager.py) and `_get_queued_transfers` skips a transfer whose state lock is held
   (an abort / pause is waiting for the tasks it cancelled);
 * the done-callbacks clear a slot only if it still holds the finished task (model.py);
-* `remove` cancels (and awaits) whatever is left in the slots after the transfer left the list.
+* `remove` cancels (and awaits) whatever is left in the slots after the transfer left the list;
+* `_initialize_download` stops when `state.initialize()` is refused (it answers the peer's request
+  with `allowed=False` and ends without touching the transfer).
+
+The state lock.  `abort` / `pause` hold `Transfer._state_lock` from their first step until they
+return (`_with_state_lock`, state.py:17-29); `remove` holds it for its `abort` part only
+(`removeMid` is the step in which that part returns: the transfer leaves the list and whatever the
+slots hold by then is cancelled, manager.py:363-374).  The management cycle skips a locked transfer,
+the message handlers do not look at the lock: a `PeerTransferRequest` that arrives meanwhile still
+sees the state the call has not changed yet and starts an `initialize-download` task **after** the
+call collected the tasks it cancels.  That task's first action, `state.initialize()`, waits for the
+lock (`blocked`); asyncio locks are FIFO, so it is the first to see the state the call leaves
+(ABORTED / PAUSED): refused.
 
 A task is `created` by a cycle / a peer's transfer request, takes its first step (`taskStart`), ends
 (`taskEnd`), and one loop iteration later its done-callback runs (`doneCallback`).  `call k c` is the
@@ -28,8 +41,10 @@ open AioslskVerif.Sched (St Dir)
 inductive TKind | queueRemotely | initUpload | initDownload
 deriving DecidableEq, Repr
 
-/-- `done`: finished (or cancelled), done-callback not yet run; `gone`: callback ran -/
-inductive Phase | created | running | done | gone
+/-- `blocked`: an initialisation waiting for the state lock a call holds; `refused`: an initialisation whose
+`state.initialize()` was refused (all that is left of it is the `allowed=False` answer to the peer's request);
+`done`: finished (or cancelled), done-callback not yet run; `gone`: callback ran -/
+inductive Phase | created | running | blocked | refused | done | gone
 deriving DecidableEq, Repr
 
 inductive CallKind | abort | pause | remove
@@ -46,16 +61,18 @@ structure Task where
 deriving Repr
 
 /-- `not task.done()` -/
-def Task.live (t : Task) : Bool := t.phase == .created || t.phase == .running
+def Task.live (t : Task) : Bool :=
+  t.phase == .created || t.phase == .running || t.phase == .blocked || t.phase == .refused
 
 structure XT where
   dir : Dir := .download
   st : St := .virgin
   rq : Bool := false               -- remotely_queued
+  retry : Bool := false            -- FAILED without a `fail_reason` (only looked at for a FAILED download)
   attempts : Nat := 0              -- queue_attempts
   rqSlot : Option Nat := none      -- _remotely_queue_task
   ttSlot : Option Nat := none      -- _transfer_task
-  locked : Option CallKind := none -- abort / pause / remove in progress (state lock held)
+  locked : Option CallKind := none -- abort / pause / remove in progress
   waitFor : List Nat := []         -- the tasks that call cancelled and awaits
   removed : Bool := false          -- no longer in `_transfers`
   quiet : Bool := false            -- ghost
@@ -69,6 +86,9 @@ structure TS where
   nt : Nat := 0
 
 def upd {α} (f : Nat → α) (k : Nat) (v : α) : Nat → α := fun i => if i = k then v else f i
+
+/-- `_state_lock.locked()`: the call in progress is inside `state.abort()` / `state.pause()` -/
+def XT.lockHeld (x : XT) : Bool := x.locked.isSome && !x.removed
 
 /-- the slot a task of this kind lives in -/
 def XT.slotOf (x : XT) : TKind → Option Nat
@@ -86,7 +106,9 @@ def TS.spawnable (s : TS) (k : Nat) : Option TKind :=
   if k < s.nx ∧ x.removed = false ∧ x.locked = none then
     match x.dir with
     | .download =>
-      if (x.st = .queued ∨ x.st = .incomplete) ∧ x.rq = false ∧ s.slotFree x.rqSlot = true then some .queueRemotely
+      -- QUEUED / INCOMPLETE, or FAILED without a reason ("failed downloads without a reason are retried", manager.py:658-664)
+      if (x.st = .queued ∨ x.st = .incomplete ∨ (x.st = .failed ∧ x.retry = true)) ∧ x.rq = false ∧
+          s.slotFree x.rqSlot = true then some .queueRemotely
       else none
     | .upload => if x.st = .queued ∧ s.slotFree x.ttSlot = true then some .initUpload else none
   else none
@@ -117,6 +139,13 @@ def liveIn (s : TS) (o : Option Nat) : List Nat :=
   | some t => if (s.tasks t).live then [t] else []
   | none => []
 
+/-- the state lock is released: its first waiter — an initialisation `blocked` in `state.initialize()`; it is the task
+the `_transfer_task` slot holds — sees the state the call left.  That state is ABORTED / PAUSED: refused. -/
+def TS.unblock (s : TS) (o : Option Nat) : Nat → Task :=
+  match o with
+  | some t => if (s.tasks t).phase = .blocked then upd s.tasks t { s.tasks t with phase := .refused } else s.tasks
+  | none => s.tasks
+
 /-- `Task.cancel()` on the tasks in the slots -/
 def TS.cancelSlots (s : TS) (k : Nat) : TS :=
   let x := s.xs k
@@ -126,15 +155,18 @@ def TS.cancelSlots (s : TS) (k : Nat) : TS :=
 inductive Op
   | addDownload
   | addUpload
+  | addFailed                             -- a download in FAILED state without a reason (as `read_cache` adds a cached one)
   | cycle (ks : List Nat)                 -- manage_transfers looked at these transfers, in this order
   | peerRequest (k : Nat)                 -- PeerTransferRequest for a queued download (manager.py:1405-1432)
   | taskStart (t : Nat)
   | taskEnd (t : Nat) (o : Outcome)
   | doneCallback (t : Nat)
   | call (k : Nat) (c : CallKind)
+  | removeMid (k : Nat)                   -- the `abort` part of `remove` returned (manager.py:364-373)
   | callResume (k : Nat)
   | requeue (k : Nat)                     -- TransferManager.queue from ABORTED / PAUSED / COMPLETE / INCOMPLETE / FAILED
   | peerFail (k : Nat)                    -- PeerTransferQueueFailed for download k: `state.fail(reason)` (manager.py, _on_peer_transfer_queue_failed)
+  | peerUploadFailed (k : Nat)            -- PeerUploadFailed for download k: `remotely_queued = False` (manager.py, _on_peer_upload_failed)
 deriving Repr
 
 def bump (x : XT) : XT := { x with acts := x.acts + 1 }
@@ -142,15 +174,22 @@ def bump (x : XT) : XT := { x with acts := x.acts + 1 }
 def step (s : TS) : Op → TS
   | .addDownload => { s with xs := upd s.xs s.nx { dir := .download, st := .queued }, nx := s.nx + 1 }
   | .addUpload => { s with xs := upd s.xs s.nx { dir := .upload, st := .queued }, nx := s.nx + 1 }
+  | .addFailed => { s with xs := upd s.xs s.nx { dir := .download, st := .failed, retry := true }, nx := s.nx + 1 }
   | .cycle ks => ks.foldl TS.trySpawn s
   | .peerRequest k =>
     let x := s.xs k
-    if k < s.nx ∧ x.dir = .download ∧ x.removed = false ∧ x.locked = none ∧
-        (x.st = .queued ∨ x.st = .incomplete ∨ x.st = .failed) ∧ s.slotFree x.ttSlot = true then
-      -- FAILED: the peer re-queues it, `state.queue(remotely=True)` first (manager.py:1422-1423)
-      let s1 : TS := if x.st = .failed then
-          { s with xs := upd s.xs k { x with st := .queued, rq := true, quiet := false } } else s
-      s1.spawn k .initDownload
+    -- found in the list, not being processed, no initialisation in flight (manager.py:1442-1451)
+    if k < s.nx ∧ x.dir = .download ∧ x.removed = false ∧ s.slotFree x.ttSlot = true then
+      if x.locked = none then
+        if x.st = .queued ∨ x.st = .incomplete then s.spawn k .initDownload
+        else if x.st = .failed then
+          -- FAILED: the peer re-queues it, `state.queue(remotely=True)` first (manager.py:1455-1456)
+          ({ s with xs := upd s.xs k { x with st := .queued, rq := true, quiet := false } } : TS).spawn k .initDownload
+        else s
+      else
+        -- an abort / pause (or the abort inside remove) is waiting for the tasks it cancelled: the handler does not look
+        -- at the lock and still reads the state the call has not changed yet; the task is created after `cancel_tasks()`
+        if x.st = .queued ∨ x.st = .incomplete then s.spawn k .initDownload else s
     else s
   | .taskStart t =>
     let tk := s.tasks t
@@ -158,11 +197,18 @@ def step (s : TS) : Op → TS
       if tk.cancelReq then { s with tasks := upd s.tasks t { tk with phase := .done } }     -- cancelled before its first step
       else
         let x := s.xs tk.xfer
-        let x' := match tk.kind with
-          | .queueRemotely => bump x                                                        -- connection attempt (manager.py:720)
-          | _ =>                                                                            -- `state.initialize()` + first message
-            bump (if x.st = .queued ∨ x.st = .incomplete then { x with st := .initializing } else x)
-        { s with tasks := upd s.tasks t { tk with phase := .running }, xs := upd s.xs tk.xfer x' }
+        match tk.kind with
+        | .queueRemotely =>                                                                 -- connection attempt (manager.py:741)
+          { s with tasks := upd s.tasks t { tk with phase := .running }, xs := upd s.xs tk.xfer (bump x) }
+        | .initUpload =>                                                                    -- `state.initialize()` (result ignored) + first message
+          { s with tasks := upd s.tasks t { tk with phase := .running },
+                   xs := upd s.xs tk.xfer (bump (if x.st = .queued ∨ x.st = .incomplete then { x with st := .initializing } else x)) }
+        | .initDownload =>                                                                  -- manager.py:823-834
+          if x.lockHeld then { s with tasks := upd s.tasks t { tk with phase := .blocked } } -- `initialize()` waits for the lock
+          else if x.st = .queued ∨ x.st = .incomplete then
+            { s with tasks := upd s.tasks t { tk with phase := .running },
+                     xs := upd s.xs tk.xfer (bump { x with st := .initializing }) }
+          else { s with tasks := upd s.tasks t { tk with phase := .refused } }              -- refused: answers `allowed=False`, ends
     else s
   | .taskEnd t o =>
     let tk := s.tasks t
@@ -196,7 +242,10 @@ def step (s : TS) : Op → TS
         | _, _ =>
           { s with tasks := upd s.tasks t { tk with phase := .done },
                    xs := upd s.xs tk.xfer (bump (if x.st = .initializing ∨ x.st = .uploading ∨ x.st = .downloading
-                     then { x with st := .failed } else x)) }
+                     then { x with st := .failed, retry := false } else x)) }
+    else if tk.phase = .refused then { s with tasks := upd s.tasks t { tk with phase := .done } }     -- nothing but the refusal
+    else if tk.phase = .blocked ∧ tk.cancelReq = true then
+      { s with tasks := upd s.tasks t { tk with phase := .done } }                                    -- cancelled while waiting for the lock
     else s
   | .doneCallback t =>
     let tk := s.tasks t
@@ -215,15 +264,23 @@ def step (s : TS) : Op → TS
                               removed := (c == .remove && !allowed c x.st) }
       { s1 with xs := upd s1.xs k x' }
     else s
+  | .removeMid k =>
+    -- `remove`: its `abort` got through (ABORTED, lock released); in the same step the transfer leaves the list and
+    -- whatever the slots hold by now (an initialisation started by a peer request meanwhile) is cancelled and awaited
+    let x := s.xs k
+    if x.locked = some .remove ∧ x.removed = false ∧ x.waitFor.all (fun t => !(s.tasks t).live) = true then
+      let s1 := s.cancelSlots k
+      { s1 with xs := upd s1.xs k { x with st := .aborted, removed := true,
+                                           waitFor := liveIn s x.rqSlot ++ liveIn s x.ttSlot } }
+    else s
   | .callResume k =>
     let x := s.xs k
     match x.locked with
     | some c =>
-      if x.waitFor.all (fun t => !(s.tasks t).live) then
+      if x.waitFor.all (fun t => !(s.tasks t).live) = true ∧ (c = .remove → x.removed = true) then
         let x' : XT := { x with locked := none, waitFor := [], quiet := true,
-                                removed := x.removed || c == .remove,
                                 st := (if x.removed then x.st else if c = .pause then .paused else .aborted) }
-        { s with xs := upd s.xs k x' }
+        { s with xs := upd s.xs k x', tasks := s.unblock x.ttSlot }
       else s
     | none => s
   | .requeue k =>
@@ -238,14 +295,19 @@ def step (s : TS) : Op → TS
     let x := s.xs k
     if k < s.nx ∧ x.dir = .download ∧ x.removed = false ∧ x.locked = none ∧
         (x.st = .queued ∨ x.st = .initializing ∨ x.st = .downloading ∨ x.st = .incomplete ∨ x.st = .paused) then
-      { s with xs := upd s.xs k { x with st := .failed } }
+      { s with xs := upd s.xs k { x with st := .failed, retry := false } }
     else s
+  | .peerUploadFailed k =>
+    -- found in the list: `transfer.remotely_queued = False` (neither state nor lock are looked at)
+    let x := s.xs k
+    if k < s.nx ∧ x.dir = .download ∧ x.removed = false then { s with xs := upd s.xs k { x with rq := false } } else s
 
 def run (ops : List Op) : TS := ops.foldl step {}
 
 /-- the op is a user / peer action on transfer `k` -/
 def Op.addresses : Op → Nat → Bool
-  | .peerRequest j, k | .call j _, k | .callResume j, k | .requeue j, k | .peerFail j, k => j == k
+  | .peerRequest j, k | .call j _, k | .removeMid j, k | .callResume j, k | .requeue j, k | .peerFail j, k
+  | .peerUploadFailed j, k => j == k
   | _, _ => false
 
 end AioslskVerif.Tasks
